@@ -130,11 +130,11 @@ Proof.
   - (* VList *) intros vs [IHa IHf] t H. destruct t; try discriminate H; cbn [encode spec_encode has_type] in *.
     + apply andb_prop in H as [H _]. now apply IHa.
     + apply andb_prop in H as [H L]. unfold spec_seq_prefix.
-      rewrite go_encode_uint_canonical by (apply len_lt_64; assumption). f_equal. now apply IHa.
+      rewrite go_encode_uint_canonical by (now apply N.ltb_lt). f_equal. now apply IHa.
     + now apply IHf.
   - (* VMap *) intros kvs IH t H. destruct t; try discriminate H; cbn [encode spec_encode has_type] in *.
     apply andb_prop in H as [H L]. unfold spec_seq_prefix.
-    rewrite go_encode_uint_canonical by (apply len_lt_64; assumption). f_equal. eapply IH; eassumption.
+    rewrite go_encode_uint_canonical by (now apply N.ltb_lt). f_equal. eapply IH; eassumption.
   - (* VNil *) split; intros; reflexivity.
   - (* VCons *) intros v IHv r [IHa IHf]. split.
     + intros t H. cbn [all_type encode_all spec_encode_all] in *. apply andb_prop in H as [H1 H2].
